@@ -10,9 +10,11 @@ import (
 	"encoding/json"
 	"errors"
 	"fmt"
+	"io"
 	"net/http"
 	"os"
 	_ "perkeep.org/pkg/blobserver/cond"
+	_ "perkeep.org/pkg/blobserver/replica"
 	"sort"
 	"strconv"
 	"strings"
@@ -27,6 +29,7 @@ import (
 	_ "perkeep.org/pkg/server" // registers the "sync" handler
 	"perkeep.org/pkg/sorted"
 
+	"verifharness/internal/vcompose"
 	"verifharness/internal/vgen"
 	"verifharness/internal/vstore"
 	"verifharness/internal/vwatch"
@@ -128,6 +131,10 @@ type scenario struct {
 	// default server configuration, where /bs-and-maybe-also-index/ routes to /bs/) instead of being
 	// handed to the source directly.
 	ViaCond bool
+	// DestHTTP: the destination store is reached over HTTP (handlers + pkg/client), as a remote one is.
+	DestHTTP bool
+	// ViaReplica: uploads reach the source through a "replica" storage whose (only) backend it is.
+	ViaReplica bool
 	// ErrKind: shape of the injected lower-layer errors (plain, the lower layer's own deadline or
 	// cancellation, an i/o timeout): none of them says anything about the handler's own context.
 	ErrKind int
@@ -135,7 +142,7 @@ type scenario struct {
 
 func (sc *scenario) canonical() string {
 	var b strings.Builder
-	fmt.Fprintf(&b, "pool=%d mode=%s dest=%s wake=%v viacond=%v errkind=%d;", sc.CopierPool, sc.Mode, sc.Dest, sc.Wake, sc.ViaCond, sc.ErrKind)
+	fmt.Fprintf(&b, "pool=%d mode=%s dest=%s wake=%v viacond=%v viareplica=%v desthttp=%v errkind=%d;", sc.CopierPool, sc.Mode, sc.Dest, sc.Wake, sc.ViaCond, sc.ViaReplica, sc.DestHTTP, sc.ErrKind)
 	for _, p := range sc.Pool {
 		b.WriteString(p.Ref.String())
 		b.WriteByte(',')
@@ -203,6 +210,7 @@ type runner struct {
 	res *result
 
 	mu       sync.Mutex
+	closers  []io.Closer
 	ep       *epoch
 	data     map[string][]byte // ref -> content of every blob the scenario knows
 	acked    map[string]bool   // an upload of ref was acknowledged without error
@@ -474,6 +482,19 @@ func (w *idleWatch) tick() (time.Duration, int, int) {
 // start builds the sync handler of ep (retrying while injected queue-read faults make construction fail).
 func (r *runner) start(ep *epoch) error {
 	ld := &loader{m: map[string]blobserver.Storage{"/from/": ep.from, "/to/": ep.to}}
+	if r.sc.DestHTTP && r.sc.Dest != "index" {
+		// the destination is another server: perkeep's protocol handlers over the harness store, and the
+		// sync handler writes to it through a pkg/client (what the "remote" storage type is)
+		hs, err := vcompose.NewHTTPStore(ep.to, false, nil)
+		if err != nil {
+			return &stop{inconclusive: fmt.Sprintf("harness: destination over HTTP: %v", err)}
+		}
+		r.mu.Lock()
+		r.closers = append(r.closers, hs.(io.Closer))
+		r.mu.Unlock()
+		ld.m["/to/"] = hs
+		r.label("destination/over-http")
+	}
 	if r.sc.Dest == "index" {
 		if ep.idx == nil {
 			ix, err := index.New(ep.idxKV)
@@ -698,6 +719,15 @@ func (r *runner) upload(ep *epoch, b vgen.Blob, what string) {
 		dst = cs
 		r.label("upload/via-cond")
 	}
+	if r.sc.ViaReplica {
+		ld := &loader{m: map[string]blobserver.Storage{"/from/": ep.from}}
+		rs, rerr := blobserver.CreateStorage("replica", ld, jsonconfig.Obj{"backends": []any{"/from/"}})
+		if rerr != nil {
+			r.violate("harness: cannot build the replica storage: %v", rerr)
+		}
+		dst = rs
+		r.label("upload/via-replica")
+	}
 	sb, err := blobserver.Receive(ctx, dst, b.Ref, bytes.NewReader(b.Data))
 	r.mu.Lock()
 	setFaults := r.hits[siteQSet+"/error"] + r.hits[siteQSet+"/applied-but-error"] - setFaultsBefore
@@ -866,6 +896,9 @@ func run(sc *scenario) (res *result) {
 			res.Violation = r.firstViolation()
 		}
 		r.mu.Lock()
+		for _, c := range r.closers {
+			go c.Close() // HTTP front ends of the destination; a copier call may still be inside one
+		}
 		for k, n := range r.hits {
 			if n > 0 {
 				r.labels["fault-delivered/"+k] = true
